@@ -371,6 +371,13 @@ def run_robust(cmd, cases, timeout=900, died='DIED', _retry=True):
     return [r if r is not None else died + ' no-output' for r in res]
 
 
+def timed_out(ctx, m):
+    """a model evaluation that ran out of its (one hour) time limit is not a verdict: counted, never a violation"""
+    if m.startswith('MODEL-DIED') and 'TIMEOUT' in m:
+        ctx.extra_cov['model_time_limit_cases_not_explored'] = ctx.extra_cov.get('model_time_limit_cases_not_explored', 0) + 1
+        return True
+    return False
+
 def impl_cmd(impl_dir):
     return [os.path.join(impl_dir, 'drv')]
 
